@@ -1098,6 +1098,8 @@ class Interp:
                     if attr == '__mro__':
                         return TupleV([TypeV(x) for x in lin_])
                     return TupleV([TypeV(x) for x in self._type_bases(obj.name)])
+            if attr == '__module__' and getattr(self, 'concrete_context', False) and obj.name in _BUILTIN_TYPE_NAMES and obj.base == obj.name:
+                return Const('builtins')
             if attr in ('__module__', '__qualname__', '__name__'):
                 return SymStr('%s.%s' % (obj.name, attr), nonempty=True)
             if attr in ('__repr__', '__str__', '__format__'):
